@@ -18,8 +18,10 @@
 
 #include "statement.h"
 #include "parser.h"
+#include "expression.h"
 
 #include <cstring>
+#include <cctype>
 #include <cstddef>
 
 namespace bloc
@@ -62,6 +64,32 @@ void Statement::delete_next()
     _next->delete_next();
     delete _next;
     _next = nullptr;
+  }
+}
+
+void Statement::unparse_list(Context& ctx, const std::vector<Expression*>& list, FILE * out)
+{
+  std::vector<std::string> texts;
+  for (const Expression * exp : list)
+    texts.push_back(exp->unparse(ctx));
+  for (size_t i = 0; i < texts.size(); ++i)
+  {
+    const std::string& t = texts[i];
+    bool enclose = false;
+    if (i + 1 < texts.size() && !texts[i + 1].empty() && texts[i + 1].front() == '(' && !t.empty())
+    {
+      /* does it end with a name ? */
+      size_t b = t.size();
+      while (b > 0 && (::isalnum((unsigned char)t[b - 1]) || t[b - 1] == '_' || t[b - 1] == '$'))
+        --b;
+      enclose = (b < t.size() && !::isdigit((unsigned char)t[b]));
+    }
+    fputc(' ', out);
+    if (enclose)
+      fputc('(', out);
+    fputs(t.c_str(), out);
+    if (enclose)
+      fputc(')', out);
   }
 }
 
